@@ -393,7 +393,11 @@ pub fn model_detect(d: &mut Driver, bytes: &[u8], s: &Sett) -> ModelRun {
             line.push(' ');
             line.push_str(v);
         }
+        let t0 = std::time::Instant::now();
         let resp = d.ask(&line);
+        if std::env::var("VERIF_DEBUG").is_ok() {
+            eprintln!("round {} took {:?}: {}", rounds, t0.elapsed(), &resp[..resp.len().min(100)]);
+        }
         if let Some(rest) = resp.strip_prefix("need ") {
             let mut progressed = false;
             for q in rest.split(' ') {
